@@ -254,6 +254,7 @@ class Sorter:
         self._fds: list = []
         self._objects_in_memory: int = 0
         self._always_spill: bool = always_spill
+        self._merging: list = []
 
     def __iadd__(self, obj: Any) -> 'Sorter':
         """Add an object to be sorted"""
@@ -276,8 +277,16 @@ class Sorter:
             m_iter = _MergingIterator(
                 paths=self._paths, codec=self._codec, key_func=self._key_func
             )
-            for record in m_iter:
-                yield record
+            # close() also closes the readers of an iteration that was
+            # abandoned half-way and is still referenced by the caller
+            self._merging.append(m_iter)
+            try:
+                for record in m_iter:
+                    yield record
+            finally:
+                m_iter.close()
+                if m_iter in self._merging:
+                    self._merging.remove(m_iter)
         else:
             self.__sort_stash()
 
@@ -325,6 +334,12 @@ class Sorter:
         error: Optional[OSError] = None
         remaining_paths: list = []
         remaining_fds: list = []
+        for m_iter in self._merging:
+            try:
+                m_iter.close()
+            except OSError as exception:
+                error = error or exception
+        self._merging = []
         for path, desc in zip(self._paths, self._fds):
             if desc is not None:
                 try:
